@@ -491,7 +491,12 @@ KF_UpdateReleasedAlloc == Step /\ E.op \in {"bad", "updateAsk"} /\ "app" \in DOM
       /\ Pre.apps[E.app].asks[E.key].allocated /\ Pre.apps[E.app].asks[E.key].rel = "" /\ E.key \notin DOMAIN Pre.apps[E.app].allocs
 \* an accepted reload that changes the limit configuration while some application is tracked under a group
 KF_ReloadWithGroupTracking == IsReload /\ E.ok /\ \E g \in DOMAIN Pre.groups : Pre.groups[g].apps # <<>>
+\* gate replay: a node is removed (and possibly registered again) while a scheduling cycle is parked between node
+\* selection and the end of partition.allocate
+KF_RemovalDuringCycle == Step /\ E.op = "gated" /\ E.parked /\ E.point \in {"tryNode.beforeNodeAdd", "partition.allocate.entry"}
+                             /\ \E i \in 1..Len(E.during) : E.during[i] \in {"removeNode", "removeApp", "release"}
 KFAll == /\ KFHit("KF-C01-REQNODE-UNSCHED", KF_ReqNodeUnsched)
+         /\ KFHit("KF-C14-REMOVAL-DURING-CYCLE", KF_RemovalDuringCycle)
          /\ KFHit("KF-C05-RELOAD-GROUP-TRACKING", KF_ReloadWithGroupTracking)
          /\ KFHit("KF-C13-UPDATE-RELEASED-ALLOC", KF_UpdateReleasedAlloc)
          /\ KFHit("KF-C03-UPDATE-LINKED-REAL", KF_UpdateLinkedReal)
